@@ -290,6 +290,9 @@ func messageOps(w *world, s faults.Slot, m *protocol.Message, check string) []*f
 			data := append([]byte{}, o.Data...)
 			add(name, "replace", func(x *protocol.Message) *protocol.Message { x.Data = data; return x })
 		}
+		// the genuine payload under a flipped broadcast flag (a header the sender controls): whatever path the
+		// handler takes for it, the message must either be processed as what it is or not count as received
+		add("hdr-broadcast-flipped", "replace", func(x *protocol.Message) *protocol.Message { x.Broadcast = !x.Broadcast; return x })
 		return out
 	}
 	// C05: header malformations, presented before the honest message
